@@ -54,6 +54,31 @@ def fresh_rule(run, rule, ast):
         run.broken.append("only %d update-path functions seen" % n)
 
 
+def once_rule(run, rule, ast):
+    """nothing in the library is computed once per process and kept: the only function-local static of the library is the
+    registration record of add_function (which IS registration state). Any other function-local static whose initialiser is not a
+    compile-time constant - a memo of a hash lookup, of a registration check, of a v-table pointer - keeps what one update
+    established and shows it to calls made after a later update (a class unregistered since is still accepted, a moved table is
+    still pointed to)."""
+    n = 0
+    for v in ast.vars:
+        if not v.get("static_local"):
+            continue
+        n += 1
+        rec = v["name"].endswith("::info") and re.search(r"add_function<.*>::add_function", v["name"]) or re.search(r"add_function<.*>::add_function::info$", v["name"]) or v["name"] == "info"
+        init = v.get("init")
+        const_init = v.get("constexpr") or init is None or not any(
+            (x.get("k") in ("CallExpr", "CXXMemberCallExpr", "CXXOperatorCallExpr")) or (x.get("k") == "DeclRefExpr" and x["ref"].get("storage") in ("global", "local") and x["ref"].get("dk") != "EnumConstant")
+            for x in astq.walk(init))
+        ok = bool(rec) or bool(const_init)
+        run.instance(rule, "function-local static `%s` (%s) is the registration record or a compile-time constant" % (v["name"].split("::")[-1], v["file"].split("yomm2/")[-1] + ":" + str(v["line"])), (v["file"], v["line"]), ok=ok)
+        if not ok:
+            run.violation(rule, "static-local|%s:%s" % (v["file"].split("yomm2/")[-1], v["name"].split("::")[-1]), "function-local static `%s` is initialised once per process from `%s`: what it holds was established by one update and survives the following ones" % (
+                v["name"][-100:], astq.text(init)[:80]), (v["file"], v["line"]))
+    if n == 0:
+        run.broken.append("no function-local static of the library in the unit (the registration record of add_function should be there)")
+
+
 def install_rule(run, rule, ast):
     """install_gv: the static v-table pointer and slots/strides stores are guarded by loops / the uni-method test only."""
     for f in crules.by_name(ast, "install_gv"):
@@ -105,6 +130,8 @@ def check(run):
         src, _ = witness.call_matrix(pols, ["rr"], witness.update_block(pols))
         rast = astq.Ast(common.ast_json(run, src, "c07_refs_%s" % ("nd" if nd else "dbg"), ndebug=nd, funcs="@none@", refs=True))
         fresh_rule(run, r[0], rast)
+        src2, _ = witness.call_matrix(pols, ["rr", "V", "X"], witness.routes_block(pols) + "\n" + witness.update_block(pols))
+        once_rule(run, r[0], astq.Ast(common.ast_json(run, src2, "c07_once_%s" % ("nd" if nd else "dbg"), ndebug=nd, funcs="@none@")))
         crules.next_rules(run, "C07-x1", r[1], ast)
         crules.hash_rules(run, r[1], "C07-x3", r[1], "C07-x4", "C07-x5", ast)      # accept: every update searches anew (no shortcut that keeps the previous parameters)
         install_rule(run, r[1], ast)
